@@ -112,3 +112,44 @@ fn slice_contains_lin<T: PartialEq>(s: &[T], x: &T) -> bool {
     }
     false
 }
+
+/// Operations held in a stack array (their operand-vector lengths then stay concrete for the
+/// solver): two operand-less operations are separated by exactly one newline, no trailing bytes.
+#[kani::proof]
+#[kani::unwind(4)]
+fn c14_encode_stack_no_operands() {
+    let ops = [
+        Operation { operator: String::from("q"), operands: Vec::new() },
+        Operation { operator: String::from("Q"), operands: Vec::new() },
+    ];
+    let c = Content { operations: ops };
+    let r = c.encode();
+    match &r {
+        Ok(v) => assert!(v.len() == 3 && v[0] == b'q' && v[1] == b'\n' && v[2] == b'Q', "operations must be separated by one newline"),
+        Err(_) => panic!("encode failed"),
+    }
+    kani::cover!(true);
+    std::mem::forget(r);
+    std::mem::forget(c);
+}
+
+/// One integer operand: `<int> Tf`-style framing (operand, one space, operator) for all i8 values.
+#[kani::proof]
+#[kani::unwind(5)]
+fn c14_encode_stack_int_operand() {
+    let i: i8 = kani::any();
+    let ops = [Operation { operator: String::from("w"), operands: vec![Object::Integer(i as i64)] }];
+    let c = Content { operations: ops };
+    let r = c.encode();
+    match &r {
+        Ok(v) => {
+            let n = v.len();
+            assert!(n >= 3 && v[n - 1] == b'w' && v[n - 2] == b' ', "operand and operator must be separated by one space");
+            assert!(ref_read_int(&v[..n - 2]) == Some(i as i128), "integer operand does not read back");
+        }
+        Err(_) => panic!("encode failed"),
+    }
+    kani::cover!(i < 0);
+    std::mem::forget(r);
+    std::mem::forget(c);
+}
